@@ -619,7 +619,7 @@ func (s *c11Station) params() {
 			s.out.Checked()
 			if res.Bad() {
 				s.fail("anypb-nourl", res, fmt.Sprintf("any|%T|%s", dst, vlib.Hex(vlibc11.Marshal(a))))
-			} else if line, ok := c11AnyLine(a, dst); ok {
+			} else if line, ok := c11AnyLine(a, dst); ok && i < vlib.Budget(8000, 30000) {
 				// the same call against the Lean model of UnmarshalAnypbTo (codec|any): URL restored or rejected, value decodable or not
 				ans := "ok set"
 				switch {
